@@ -61,6 +61,7 @@ class Universe:
         os.makedirs(base_dir, exist_ok=True)
         with open(os.path.join(base_dir, "go.mod"), "w") as fh:
             fh.write("module example.com/minigo\n\ngo 1.21\n")
+        minigo.write_support(base_dir)
         for i in range(0, len(names), per_file):
             chunk = names[i:i + per_file]
             # every file is package example.com/minigo/pk of its OWN module root, so that all instances
@@ -70,6 +71,7 @@ class Universe:
             os.makedirs(d)
             with open(os.path.join(root, "go.mod"), "w") as fh:
                 fh.write("module example.com/minigo\n\ngo 1.21\n")
+            minigo.write_support(root)
             path = os.path.join(d, "f.go")
             with open(path, "w") as fh:
                 fh.write(minigo.render_file("pk", [(self.inst[n][0], n, self.inst[n][1]) for n in chunk]))
